@@ -223,14 +223,14 @@ type Evidence struct {
 }
 
 type runResult struct {
-	Prop     string
-	Obs      []*Ob
-	Notes    []string
-	Assume   []string
-	Configs  []map[string]any
-	Extra    map[string]any
-	Start    time.Time
-	Fatal    string
+	Prop    string
+	Obs     []*Ob
+	Notes   []string
+	Assume  []string
+	Configs []map[string]any
+	Extra   map[string]any
+	Start   time.Time
+	Fatal   string
 }
 
 func writeJSON(path string, v any) error {
